@@ -278,9 +278,11 @@ def psfandgridconv(xi1, eta1, lat, lon, cm, conf_lat, ellipsoid=grs80, prj=utm):
     grid_conv = degrees(atan(abs(q / p))
                         + atan(abs(tan(conf_lat) * tan(long_diff))
                                / sqrt(1 + tan(conf_lat)**2)))
-    if cm > lon and lat < 0:
+    # side of the central meridian from the longitude difference itself, so that
+    # a point across the +/-180 meridian from it (lon -179, cm 177) is east of it
+    if sin(long_diff) < 0 and lat < 0:
         grid_conv = -grid_conv
-    elif cm < lon and lat > 0:
+    elif sin(long_diff) > 0 and lat > 0:
         grid_conv = -grid_conv
 
     return psf, grid_conv
